@@ -478,6 +478,7 @@ func (r *vfC08Run) runQueries(t *rapid.T) {
 
 	r.checkLog(t, qs, "memory")
 	r.checkStats(t, qs)
+	r.ignoreForAWhile(t, qs, "memory")
 
 	// flush to disk (the production shutdown path), then read file and API again
 	if err := r.w.qlog.Shutdown(context.Background()); err != nil && !strings.Contains(err.Error(), "nothing to write") {
@@ -569,6 +570,104 @@ func (r *vfC08Run) maskedHidden(q *vfC08Q, logged bool) (hidden bool) {
 	}
 
 	return false
+}
+
+// ignoreForAWhile marks a client ignore-querylog, or puts a recorded name on the
+// ignore list through the API, checks that the log API stops returning exactly
+// the entries concerned ("currently ignored"), and undoes the change, so that
+// the later stages see the original configuration.  Not done under
+// anonymisation for clients (the stored address no longer identifies them).
+func (r *vfC08Run) ignoreForAWhile(t *rapid.T, qs []*vfC08Q, stage string) {
+	c := r.conf
+	switch rapid.IntRange(0, 3).Draw(t, "ignore_for_a_while_"+stage) {
+	case 0:
+		var cands []*vfC08Client
+		for _, cl := range c.Clients {
+			if !cl.IgnoreLog {
+				cands = append(cands, cl)
+			}
+		}
+		if len(cands) == 0 || c.Anonymize {
+			return
+		}
+		cl := rapid.SampledFrom(cands).Draw(t, "client_ignored_for_a_while_"+stage)
+		set := func(v bool) {
+			prev, ok := r.w.storage.FindByName(cl.Name)
+			if !ok {
+				t.Fatalf("VERIF-INCONCLUSIVE client %q not in the registry", cl.Name)
+			}
+			upd := prev.ShallowClone()
+			upd.IgnoreQueryLog = v
+			if uerr := r.w.storage.Update(context.Background(), cl.Name, upd); uerr != nil {
+				t.Fatalf("VERIF-INCONCLUSIVE updating client %q: %v", cl.Name, uerr)
+			}
+			cl.IgnoreLog = v
+		}
+		set(true)
+		var hidden []*vfC08Q
+		for _, q := range qs {
+			if q.Owner == cl && q.WantLogged {
+				q.WantLogged = false
+				hidden = append(hidden, q)
+			}
+		}
+		r.checkLog(t, qs, stage+"_while_client_ignored")
+		for _, q := range hidden {
+			q.WantLogged = true
+		}
+		set(false)
+		vfC08.Class("ignored_for_a_while:client:" + stage)
+		if len(hidden) > 0 {
+			vfC08.Class("ignored_for_a_while:client_hides_entries:" + stage)
+		}
+	case 1:
+		var names []string
+		for _, q := range qs {
+			if q.WantLogged && !q.Ambiguous && q.Name != "." {
+				names = append(names, strings.ToLower(strings.TrimSuffix(q.Name, ".")))
+			}
+		}
+		if len(names) == 0 {
+			return
+		}
+		name := rapid.SampledFrom(names).Draw(t, "name_ignored_for_a_while_"+stage)
+		put := func(ignored []string) {
+			if ignored == nil {
+				ignored = []string{}
+			}
+			body, _ := json.Marshal(map[string]any{
+				"enabled": true, "anonymize_client_ip": c.Anonymize, "interval": 86400000, "ignored": ignored,
+			})
+			rec := httptest.NewRecorder()
+			r.handlers["PUT /control/querylog/config/update"](rec, httptest.NewRequest(http.MethodPut, "/control/querylog/config/update", strings.NewReader(string(body))))
+			if rec.Code != http.StatusOK {
+				t.Fatalf("VERIF-INCONCLUSIVE querylog config update %s: %d %s", body, rec.Code, rec.Body.String())
+			}
+		}
+		var orig []string
+		for _, ru := range c.LogRules {
+			orig = append(orig, ru.Text)
+		}
+		for _, o := range orig {
+			if strings.EqualFold(o, name) {
+				return
+			}
+		}
+		put(append(append([]string{}, orig...), name))
+		var hidden []*vfC08Q
+		for _, q := range qs {
+			if q.WantLogged && strings.ToLower(strings.TrimSuffix(q.Name, ".")) == name {
+				q.WantLogged = false
+				hidden = append(hidden, q)
+			}
+		}
+		r.checkLog(t, qs, stage+"_while_name_ignored")
+		for _, q := range hidden {
+			q.WantLogged = true
+		}
+		put(orig)
+		vfC08.Class("ignored_for_a_while:name:" + stage)
+	}
 }
 
 // expectedLog builds the multiset of (name, stored client) the log must hold.
